@@ -83,3 +83,21 @@ Definition l_validate_op (s : clist) (o : lop) : option (option (N * N * N)) :=
 Definition l_read (s : clist) : list N := snd <$> lseq s.
 Definition l_len (s : clist) : nat := length (lseq s).
 Definition l_position (s : clist) (ix : nat) : option N := l_read s !! ix.
+
+(** Further read entry points of [List] ([is_empty], [iter], [iter_entries],
+    [position_entry], [get], [first(_entry)], [last(_entry)]) and of [GList]
+    ([is_empty], [iter], [first], [last], [read_into]). *)
+Definition l_is_empty (s : clist) : bool := match lseq s with [] => true | _ => false end.
+Definition l_iter_entries (s : clist) : list (list (Qc * (N * N)) * N) := lseq s.
+Definition l_position_entry (s : clist) (id : list (Qc * (N * N))) : option nat :=
+  fst <$> list_find (λ e, e.1 = id) (lseq s).
+Definition l_get (s : clist) (id : list (Qc * (N * N))) : option N :=
+  (λ p : nat * (list (Qc * (N * N)) * N), p.2.2) <$> list_find (λ e, e.1 = id) (lseq s).
+Definition l_first_entry (s : clist) : option (list (Qc * (N * N)) * N) := head (lseq s).
+Definition l_last_entry (s : clist) : option (list (Qc * (N * N)) * N) := last (lseq s).
+Definition l_first (s : clist) : option N := snd <$> l_first_entry s.
+Definition l_last (s : clist) : option N := snd <$> l_last_entry s.
+
+Definition gl_is_empty (g : list (list (Qc * N))) : bool := match g with [] => true | _ => false end.
+Definition gl_first (g : list (list (Qc * N))) : option (list (Qc * N)) := head g.
+Definition gl_last (g : list (list (Qc * N))) : option (list (Qc * N)) := last g.
